@@ -244,6 +244,14 @@ class Ctx(HeapSnap):
     def opq(self, name):
         return self.eng.fresh_opq(name)
 
+    def cipher(self, name="cipher"):
+        """AES-CBC cipher object: `fed` = all bytes passed to encrypt/decrypt so far, `out` = all bytes returned;
+        each call returns aes_cbc_stream(fed_before, x) of the same length (assumed contract of Cryptodome, DESIGN 6.4)"""
+        fed = self.eng.fresh_seq(name + ".fed", "byte", "bytes")
+        out = self.eng.fresh_seq(name + ".out", "byte", "bytes")
+        self.eng.assume(V.L(fed) % 16 == 0)
+        return self.eng.alloc("cipher", fed=fed, out=out, label=name)
+
     def regex(self, pattern):
         """a compiled regular expression object (only literal patterns with a model in builtins_model)"""
         return self.eng.alloc("pattern", pattern=pattern)
